@@ -89,6 +89,15 @@ def togglesOp (t : TogglesSt) (ws : List String) : TogglesSt × String :=
       | .err => (t, "err " ++ showFlags t.st.flags)
       | .panic => (t, "panic " ++ showFlags t.st.flags)
     | _, _, _ => (t, "bad-op")
+  | ["setw", a, b, c] =>
+    -- all three switches together with other fields of the same `UpdateConfig` message
+    match parseBit a, parseBit b, parseBit c with
+    | some a, some b, some c =>
+      match step (fun _ => .ok ()) t.st (.setFlags true ⟨a, b, c⟩) with
+      | .ok s => ({ t with st := s }, "ok " ++ showFlags s.flags)
+      | .err => (t, "err " ++ showFlags t.st.flags)
+      | .panic => (t, "panic " ++ showFlags t.st.flags)
+    | _, _, _ => (t, "bad-op")
   | ["setp", a, b, c] =>
     let opt := fun (w : String) => if w == "-" then some none else (parseBit w).map some
     match opt a, opt b, opt c with
